@@ -142,7 +142,14 @@ def run_case(case):
     try:
         if not srv.wait_ready(20):
             if srv.proc.poll() is not None:
-                return Outcome([], False, classes + ["refused-to-start"], sample={"case": case, "log": srv.logtext()[-300:]})
+                log = srv.logtext()
+                import re as _re
+                m = _re.search(r"^(UnboundLocalError|NameError|AttributeError|TypeError|IndexError|AssertionError|ValueError)\b.*$", log, _re.M)
+                if "Exception in worker process" in log and m:
+                    # not a refusal of the configuration: the privilege drop itself crashed in every worker
+                    V("workers-exist", "workers-crash-at-boot:" + m.group(1), {"error": m.group(0)[:200]}, "workers running with the configured ids")
+                    return Outcome(vio, True, classes, sample={"case": case})
+                return Outcome([], False, classes + ["refused-to-start"], sample={"case": case, "log": log[-300:]})
             log = srv.logtext()
             boots = log.count("Booting worker with pid")
             if boots >= 4 or "Exception in worker process" in log:
